@@ -76,23 +76,23 @@ TECH = {
     'C01': 'abstract interpretation (geometry kind lattice: frame/wrapping) + who-may-read over the resolved package',
     'C02': 'abstract interpretation (coordinate frame kinds, index kinds) + sibling call agreement + constant extraction',
     'C03': 'abstract interpretation (index/frame-offset kinds, emptiness refinement on branches) + table agreement',
-    'C04': 'abstract interpretation of DataFrame column kinds (NOSITE taint refinement) + polarity check on the AST',
+    'C04': 'abstract interpretation of DataFrame column kinds and row roles (NOSITE taint refinement, scanner-state liveness on the CFG) + guard polarity through helper predicates',
     'C05': 'taint analysis (NOSITE index kinds) over all consumers + monomial normal form / unit algebra',
     'C06': 'abstract interpretation (Cartesian/fractional kinds, axis-tracked reductions) + monomial normal form',
     'C07': 'aggregation of geometry-kind obligations over the analysis modules + must-pass-through on the CFG',
-    'C08': 'axis-tag pairing + symbolic length arithmetic over the AST',
+    'C08': 'abstract interpretation with per-axis tags (loops over the lattice directions unrolled) + symbolic length / linear-form agreement of edges, extents and (linear) voxel indices',
     'C09': 'monomial/unit algebra + must-pass-through (sanitiser) + constant extraction',
-    'C10': 'literal table exhaustiveness + finite value-set propagation through the dispatch + attribute-name table agreement',
+    'C10': 'literal move-table provenance and exhaustiveness + finite value-set propagation through the method dispatch + writer/reader agreement of graph attribute names + memo-key completeness (def-use)',
     'C11': 'table agreement (encoder/decoder, lookup offset) + symbolic length arithmetic + geometry kinds',
-    'C12': 'sorted-scan exit rule + dominance on the CFG + geometry kinds',
+    'C12': 'sorted-scan exit rule + guard dominance on the CFG, followed through predicate helpers and generator pipelines + geometry kinds',
     'C13': 'species-kind lattice at membership tests + sibling isinstance agreement + constructor keyword completeness',
     'C14': 'homogeneity-degree and unit inference (monomial normal forms) by abstract interpretation',
     'C15': 'effect/alias analysis: who-may-write + provenance classification of every in-place write in the package',
     'C16': 'dependency (def-use) flow from parameters to cache key + CFG must-pass-through + exception-handler discipline',
     'C17': 'abstract interpretation (wrapping kinds of image-correction operands) + operate/inverse pairing',
     'C18': 'abstract interpretation (image-correction typestate W2->W1->MI) + einsum/axis specification checks',
-    'C19': 'comparison-polarity and table agreement rules on the AST + sibling agreement',
-    'C20': 'decorator structure check + heap reachability (escape analysis) + who-may-write',
+    'C19': 'abstract interpretation with partition-pair facets (consecutive edges of one sequence, widths, minimum width) + comparison polarity of the window masks + provenance of the pieces handed to each part',
+    'C20': 'abstract application of the cache decorator (key must be weakref.ref(self) + arguments) + heap reachability of cached values (escape analysis) + who-may-write on memoised results + memo-key completeness',
 }
 
 
